@@ -108,44 +108,56 @@ def static_table(chk, ed, tier, rng):
     chk.sample(dict(file=["comment", "tVref 3 tMass", "V c11 C12 c_44 C_1123", "tV0 t_0_0 t_0_1 ...", "...", "lattice parameters", "tL_0_0 tL_0_1 tL_0_2"]))
 
 
+NUMBER_SPELLINGS = {"plain": "%.3f", "exponent": "%.6e", "EXPONENT": "%.6E", "signed": "%+.3f", "many digits": "%.11f"}
+
+
 def replay_static(chk, ed, nv, cols, lattice, rng, what):
+    """Concrete replay of the static-table reader, once per spelling of the numbers that float() accepts (the symbolic run works on opaque
+    tokens, so a reader that looks *into* the numeric text fails there for every token; which real spelling it mis-reads is found here)."""
     from cij.util import c_
-    vals = [[round(rng.uniform(-500, 900), 3) for _ in cols] for _ in range(nv)]
-    vol = [round(400.0 - 17.5 * i, 3) for i in range(nv)]
-    lat = [[round(rng.uniform(3, 12), 4) for _ in range(3)] for _ in range(nv)]
-    lines = ["comment", "%.3f %d %.3f" % (vol[0], nv, 123.456), "V " + " ".join(cols)]
-    lines += [" ".join(["%.3f" % vol[i]] + ["%.3f" % v for v in vals[i]]) for i in range(nv)]
-    if lattice:
-        lines += ["lattice"] + [" ".join("%.4f" % x for x in lat[i]) for i in range(nv)]
-    with tempfile.NamedTemporaryFile("w", suffix=".dat", delete=False) as fp:
-        fp.write("\n".join(lines) + "\n")
-        fn = fp.name
-    try:
-        d = ed.read_elast_data(fn)
-    except Exception as e:
-        chk.violation("read_elast_data:raises", "read_elast_data raises %s: %s on a well-formed table (columns %s)" % (type(e).__name__, e, cols), dict(lines=lines))
-        return
-    finally:
-        os.unlink(fn)
-    bad = None
-    if d.vref != vol[0] or d.nv != nv or d.cellmass != 123.456 or len(d.volumes) != nv:
-        bad = "header / row count"
-    else:
-        for i in range(nv):
-            if d.volumes[i].volume != vol[i]:
-                bad = "volume of row %d" % i
-            for j, cn in enumerate(cols):
-                key = c_("".join(ch for ch in cn if ch.isdigit()))
-                if d.volumes[i].static_elastic_modulus.get(key) != vals[i][j]:
-                    bad = "component %s of row %d: %r instead of %r" % (cn, i, d.volumes[i].static_elastic_modulus.get(key), vals[i][j])
-        if lattice and [tuple(x) for x in d.lattice_parmeters] != [tuple(x) for x in lat]:
-            bad = "lattice block"
-        if not lattice and len(d.lattice_parmeters):
-            bad = "lattice parameters invented"
-    if bad:
-        chk.violation("read_elast_data:wrong", "read_elast_data mis-reads a well-formed table: %s" % bad, dict(lines=lines))
-    else:
-        chk.harness_error("C17 static table: '%s' did not reproduce" % what)
+    for style, f in NUMBER_SPELLINGS.items():
+        txt = lambda x: f % x
+        vals_t = [[txt(rng.uniform(-500, 900)) for _ in cols] for _ in range(nv)]
+        vol_t = [txt(400.0 - 17.5 * i) for i in range(nv)]
+        lat_t = [[txt(rng.uniform(3, 12)) for _ in range(3)] for _ in range(nv)]
+        mass_t = txt(123.456)
+        vals = [[float(t) for t in row] for row in vals_t]
+        vol = [float(t) for t in vol_t]
+        lat = [[float(t) for t in row] for row in lat_t]
+        lines = ["comment", "%s %d %s" % (vol_t[0], nv, mass_t), "V " + " ".join(cols)]
+        lines += [" ".join([vol_t[i]] + vals_t[i]) for i in range(nv)]
+        if lattice:
+            lines += ["lattice"] + [" ".join(lat_t[i]) for i in range(nv)]
+        with tempfile.NamedTemporaryFile("w", suffix=".dat", delete=False) as fp:
+            fp.write("\n".join(lines) + "\n")
+            fn = fp.name
+        try:
+            d = ed.read_elast_data(fn)
+        except Exception as e:
+            chk.violation("read_elast_data:raises", "read_elast_data raises %s: %s on a well-formed table (columns %s, numbers written in '%s' form)"
+                          % (type(e).__name__, e, cols, style), dict(lines=lines))
+            return
+        finally:
+            os.unlink(fn)
+        bad = None
+        if d.vref != vol[0] or d.nv != nv or d.cellmass != float(mass_t) or len(d.volumes) != nv:
+            bad = "header / row count (reference volume %r, rows %r, cell mass %r instead of %r, %r, %r)" % (d.vref, d.nv, d.cellmass, vol[0], nv, float(mass_t))
+        else:
+            for i in range(nv):
+                if d.volumes[i].volume != vol[i]:
+                    bad = "volume of row %d" % i
+                for j, cn in enumerate(cols):
+                    key = c_("".join(ch for ch in cn if ch.isdigit()))
+                    if d.volumes[i].static_elastic_modulus.get(key) != vals[i][j]:
+                        bad = "component %s of row %d: %r instead of %r" % (cn, i, d.volumes[i].static_elastic_modulus.get(key), vals[i][j])
+            if lattice and [tuple(x) for x in d.lattice_parmeters] != [tuple(x) for x in lat]:
+                bad = "lattice block"
+            if not lattice and len(d.lattice_parmeters):
+                bad = "lattice parameters invented"
+        if bad:
+            chk.violation("read_elast_data:wrong", "read_elast_data mis-reads a well-formed table whose numbers are written in '%s' form: %s" % (style, bad), dict(lines=lines))
+            return
+    chk.harness_error("C17 static table: '%s' did not reproduce" % what)
 
 
 def phonon_reader_tokens(chk, qi, tier, rng):
